@@ -333,3 +333,45 @@ package internal
 //@   at call At 1 ghost unused = ret == nil
 //@   at call errf 1 ghost unused = false
 //@   ensures [C14] every-unconsumed-output-was-reported: !unused
+
+// ---------------------------------------------------------------------------
+// C01 / C02 / C11, scheduling: the jobs the generated code lists as
+// Dependencies come from function.DependsOn. For every function and every
+// dependency type that has a provider, the provider function is in DependsOn -
+// this includes the predicate's sentinel type, so a task depends on its
+// predicate, and a predicate on the providers of its own inputs.
+
+//@ macro DEPK = f.Funcs[funcIdx].Dependencies[k]
+//@ macro HASPROV = typeof(tmapAt(f.providers, $DEPK)) == typeid("int")
+//@ macro PROV = dataof(tmapAt(f.providers, $DEPK))
+
+//@ func (*compiler).scheduleFlowAndToposort$1
+//@   option props=[C13]
+//@   ghost pos map[int]int
+//@   requires f != nil && f.providers != nil && 0 <= funcIdx && funcIdx < len(f.Funcs) && f.Funcs[funcIdx] != nil
+//@   loop 1 invariant [C01,C02,C11] providers-collected-so-far: 0 <= idx1 && idx1 <= len(f.Funcs[funcIdx].Dependencies) && forall(k, int, implies(0 <= k && k < idx1 && $HASPROV, 0 <= pos[k] && pos[k] < len(deps) && deps[pos[k]] == $PROV))
+//@   ghost src map[int]int
+//@   loop 1 invariant [C13] only-provider-indices-collected: len(deps) >= 0 && forall(j, int, implies(0 <= j && j < len(deps), 0 <= src[j] && src[j] < idx1 && typeof(tmapAt(f.providers, f.Funcs[funcIdx].Dependencies[src[j]])) == typeid("int") && deps[j] == dataof(tmapAt(f.providers, f.Funcs[funcIdx].Dependencies[src[j]]))))
+//@   at call append 1 ghost pos[idx1] = len(arg0)
+//@   at call append 1 ghost src[len(arg0)] = idx1
+//@   ensures [C01,C02,C11] every-dependency-with-a-provider-is-listed: forall(k, int, implies(0 <= k && k < len(f.Funcs[funcIdx].Dependencies) && $HASPROV, exists(j, int, 0 <= j && j < len(result) && result[j] == $PROV)))
+//@   ensures [C13] lists-only-provider-indices: forall(j, int, implies(0 <= j && j < len(result), exists(k, int, 0 <= k && k < len(f.Funcs[funcIdx].Dependencies) && $HASPROV && result[j] == $PROV)))
+
+//@ macro FN = f.Funcs[i]
+//@ macro HASPROVI = typeof(tmapAt(f.providers, f.Funcs[i].Dependencies[k])) == typeid("int")
+//@ macro PROVI = dataof(tmapAt(f.providers, f.Funcs[i].Dependencies[k]))
+//@ macro SCHEDULED = forall(k, int, implies(0 <= k && k < len(f.Funcs[i].Dependencies) && $HASPROVI, exists(j, int, 0 <= j && j < len(f.Funcs[i].DependsOn) && f.Funcs[i].DependsOn[j] == f.Funcs[$PROVI])))
+
+//@ func (*compiler).scheduleFlowAndToposort
+//@   option props=[C13]
+//@   ghost v map[int]int
+//@   ghost deps2 slice[int]
+//@   requires $C && f != nil && f.providers != nil
+//@   requires functions-are-distinct-objects: forall(i, int, implies(0 <= i && i < len(f.Funcs), f.Funcs[i] != nil && forall(i2, int, implies(0 <= i2 && i2 < len(f.Funcs) && i != i2, f.Funcs[i] != f.Funcs[i2]))))
+//@   requires providers-hold-function-indices: forall(t, int, implies(typeof(tmapAt(f.providers, t)) == typeid("int"), 0 <= dataof(tmapAt(f.providers, t)) && dataof(tmapAt(f.providers, t)) < len(f.Funcs)))
+//@   loop 1 invariant [C01,C02,C11] functions-scheduled-so-far: 0 <= idx1 && idx1 <= len(f.Funcs) && forall(i, int, implies(0 <= i && i < idx1, $SCHEDULED))
+//@   loop 2 invariant [C01,C02,C11] providers-appended-so-far: 0 <= idx2 && idx2 <= len(deps2) && 0 <= idx && idx < len(f.Funcs) && fn == f.Funcs[idx] && forall(j, int, implies(0 <= j && j < idx2, 0 <= v[j] && v[j] < len(fn.DependsOn) && fn.DependsOn[v[j]] == f.Funcs[deps2[j]])) && forall(i, int, implies(0 <= i && i < idx, $SCHEDULED))
+//@   at call Dependencies 1 ghost deps2 = ret
+//@   at store DependsOn 1 ghost v[idx2] = len(target.DependsOn) - 1
+//@   at call toposort 1 assume unproved-toposort-returns-node-indices: forall(j, int, implies(0 <= j && j < len(ret), 0 <= ret[j] && ret[j] < len(f.Funcs)))
+//@   ensures [C01,C02,C11] every-function-depends-on-the-provider-of-each-of-its-dependencies: forall(i, int, implies(0 <= i && i < len(f.Funcs), forall(k, int, implies(0 <= k && k < len(f.Funcs[i].Dependencies) && $HASPROVI, exists(j, int, 0 <= j && j < len(f.Funcs[i].DependsOn) && f.Funcs[i].DependsOn[j] == f.Funcs[$PROVI])))))
